@@ -140,3 +140,41 @@ func VerifC26_db() {
 	db2.Close()
 	db3.Close()
 }
+
+// VerifC26_truncatedIndex: the process crashed while Save was writing the index, so the index
+// file holds only a prefix (cut at any byte) of what Encode produces; reopening must either
+// refuse the index or answer every lookup as the complete index would.
+func VerifC26_truncatedIndex() {
+	n := sym.Choice("keys", 1, 3)
+	mi := newMapIndex()
+	offs := map[Key]int64{}
+	for i := 0; i < n; i++ {
+		o := sym.I64("offset")
+		offs[verifC26Keys[i]] = o
+		if err := mi.SetOffset(verifC26Keys[i], o); err != nil {
+			sym.Fail("SetOffset failed")
+		}
+	}
+	buf := bytes.NewBuffer(nil)
+	sym.Assert(mi.Encode(buf) == nil, "index encodes")
+	raw := append([]byte{}, buf.Bytes()...)
+	cut := sym.Choice("bytesWritten", 0, len(raw))
+
+	fk := newFixedKeyArrayIndex(2)
+	derr := fk.Decode(bytes.NewBuffer(raw[:cut]))
+	if derr != nil {
+		sym.Cover("truncated-index-refused")
+		sym.Assert(cut < len(raw), "the complete index decodes")
+		return
+	}
+	sym.Cover("index-accepted")
+	probe := verifC26Probes[sym.Choice("probe", 0, len(verifC26Probes)-1)]
+	want, present := offs[probe]
+	sym.StepLimit(200000)
+	got, err := fk.GetOffset(probe)
+	if present {
+		sym.Assert(err == nil && got == want, "after a crash during the index write, an accepted index returns the offset written for a present key")
+	} else {
+		sym.Assert(err == ErrKeyNotFound, "after a crash during the index write, an accepted index answers not-found for a key never written")
+	}
+}
